@@ -815,6 +815,13 @@ def force_close(a, b):
     return a is not None and b is not None and len(a) == len(b) and all(vec_close(p, q) for p, q in zip(a, b))
 
 
+def force_same(a, b):
+    """equal forces for the tie: components close, or not-a-number on both sides (a unit vector exactly opposite to a hill
+    centre in range gives inf - inf in the implementation and in the model alike)"""
+    return a is not None and b is not None and len(a) == len(b) and all(
+        len(p) == len(q) and all((t != t and u != u) or close(t, u) for t, u in zip(p, q)) for p, q in zip(a, b))
+
+
 def tangential(c, F, x):
     """forces with the radial component removed for unit-vector variables: between (nearly) coincident unit vectors the
     implemented gradient -2 theta/sin(theta) c is ill-conditioned along the vector itself (0/0 at theta = 0, where the
@@ -838,7 +845,7 @@ def compare_step(c, im, mo):
         # (a unit vector exactly opposite to a hill centre gives +-inf components on both sides: compared as they are)
         if not force_close(tangential(c, im["F"], im["cv"]), tangential(c, mo["F"], im["cv"])):
             return "force"
-    elif not force_close(im["F"], mo["F"]):
+    elif not force_same(im["F"], mo["F"]):
         return "force"
     ex = not has_restart(c)
     if (im["nhills"], im["nnew"]) != (mo["nhills"], mo["nnew"]) or not hills_close(im["hills"], mo["hills"], ex):
@@ -1426,6 +1433,8 @@ def check_one(run, c, impl, mo, txt, rcv, o, traj, mline):
     # tie
     impl_all = impl
     impl = [im for im, t in zip(impl_all, steps_of(c)) if t[0] % c.get("tsf", 1) == 0]
+    if not impl:
+        return          # the bias slept at every step of this history (timeStepFactor): nothing to tie
     if mo is None or len(mo) != len(impl):
         run.mismatch("model-output", {"model_case": mline}, len(impl), None if mo is None else len(mo))
         return
